@@ -152,6 +152,10 @@ def _cvc5_check(smt, timeout_ms):
         os.unlink(path)
 
 
+EMATCH_PORTFOLIO = [{"smt.relevancy": 0}, {"smt.random_seed": 1}, {"smt.random_seed": 2, "smt.qi.eager_threshold": 100.0},
+                    {"smt.relevancy": 0, "smt.random_seed": 3, "smt.qi.eager_threshold": 100.0}]
+
+
 def solve_one(job):
     """job = (idx, qf_smt2, full_smt2, trivial, timeout_ms, use_cvc5, both)"""
     idx, qf, full, trivial, timeout_ms, use_cvc5, both = job[:7]
@@ -173,11 +177,18 @@ def solve_one(job):
     stages.append(("full", full, {}))
     for stage, smt, opts in stages:
         try:
-            # the cheap stages get a short budget; only the last one the full budget
             # the cheap abstractions get a short budget; e-matching and the full run the whole budget each (a proof found by
             # e-matching in a second must not be lost to a slow machine)
             budget = timeout_ms if stage in ("full", "ematch") else min(timeout_ms, 3000)
             verdict, model, reason = _z3_check(smt, budget, opts)
+            if stage == "ematch" and verdict != "unsat" and expect == "unsat":
+                # e-matching gives up ("incomplete quantifiers") within milliseconds depending on relevancy filtering and the
+                # instantiation order; a small portfolio of configurations makes the verdict independent of such accidents
+                for extra in EMATCH_PORTFOLIO:
+                    v2, m2, r2 = _z3_check(smt, min(timeout_ms, 6000), dict(opts, **extra))
+                    if v2 == "unsat":
+                        verdict, model, reason = v2, m2, r2
+                        break
         except z3.Z3Exception as ex:
             verdict, model, reason = "unknown", None, f"z3 exception: {ex}"
         if verdict == "unsat":
